@@ -5,6 +5,7 @@
 //! usage: replay <routine> [args...]   -> one JSON object on stdout
 use std::time::{Duration, Instant};
 
+mod bar;
 mod c01;
 mod c03;
 mod c05;
@@ -37,6 +38,12 @@ fn main() {
         "human_float" => c15::human_float(rest),
         "human_count" => c15::human_count(rest),
         "formatted_duration" => c15::formatted_duration(rest),
+        "bar_screen" => bar::bar_screen(rest),
+        "bar_forced" => bar::bar_forced(rest),
+        "bar_frames" => bar::bar_frames(rest),
+        "bar_hidden" => bar::bar_hidden(rest),
+        "multi_order" => bar::multi_order(rest),
+        "multi_finish" => bar::multi_finish(rest),
         "est_decay" => c09::est_decay(rest),
         "est_laws" => c09::est_laws(rest),
         "render_keys" => c11::render_keys(rest),
